@@ -33,7 +33,7 @@ Theorem config_path_precedence : forall w i,
     | None => if is_set (i_f_config i) (i_e_config i) then inl EConfigMissing else inr no_cfg
     | Some (FConfig e) => inr e
     | Some FDir => inl (EScan false)
-    | Some (FFile _) => inl (EUnmodelled (b "config file syntax"))
+    | Some (FFile data) => read_config data
     end /\
   (forall w', w_default_config w' = w_default_config w ->
               lookup (config_path w i) (w_fs w') = lookup (config_path w i) (w_fs w) ->
